@@ -231,6 +231,40 @@ def check_long(col, kind, st, T):
             col.violation(f"{kind}.bounds.raises", case, f"{type(ex).__name__}: {ex}", subtype=st)
 
 
+def check_half_finite(col, kind, st):
+    """an element finite on one axis only, wider than everything else, on an object that has a history: index built, queried
+    through cx, pickled - bounds and total_bounds stay what the definition says"""
+    import pickle
+    if not st.startswith("float"):
+        return
+    base = [e for e in pools(kind, False) if e is not None and e != ()][:3]
+    if kind == "point":
+        half = [(-50.0, NAN), (NAN, 60.0)]
+    elif kind in ("multipoint", "line", "ring"):
+        half = [((-50.0, NAN), (70.0, NAN)), ((NAN, -40.0), (NAN, 60.0))]
+    elif kind in ("multiline", "polygon"):
+        half = [(((-50.0, NAN), (70.0, NAN), (-50.0, NAN)),), (((NAN, -40.0), (NAN, 60.0), (NAN, -40.0)),)]
+    else:
+        half = [((((-50.0, NAN), (70.0, NAN), (-50.0, NAN)),),), ((((NAN, -40.0), (NAN, 60.0), (NAN, -40.0)),),)]
+    for hi, h in enumerate(half):
+        elems = base[:2] + [h] + base[2:] + [None]
+        case = {"kind": kind, "subtype": st, "T": [1, 0, 0], "elems": [jelem(e) for e in elems], "half_finite": hi}
+        eb = np.array([exp_bounds(kind, e) for e in elems], dtype=float).reshape(len(elems), 4)
+        et = exp_total(kind, elems)
+        histories = {"fresh": lambda a: a, "build_sindex": lambda a: a.build_sindex(page_size=2), "sindex+cx": lambda a: (a.sindex, a.cx[0.0:1.0, 0.0:1.0], a)[2],
+                     "pickled_with_index": lambda a: pickle.loads(pickle.dumps(a.build_sindex()))}
+        for hname, fn in histories.items():
+            col.count("evaluations")
+            try:
+                a = fn(L.make_array(kind, elems, st))
+                if not eqf(a.bounds, eb) or not eqf(a.total_bounds, et) or not eqf(a.total_bounds_x, (et[0], et[2])) or not eqf(a.total_bounds_y, (et[1], et[3])):
+                    col.violation(f"{kind}.bounds.half_finite", dict(case, history=hname),
+                                  f"{hname}: bounds {np.asarray(a.bounds).tolist()} total {tuple(a.total_bounds)} x {tuple(a.total_bounds_x)} y {tuple(a.total_bounds_y)}; "
+                                  f"expected {eb.tolist()} total {et}", subtype=st)
+            except Exception as ex:
+                col.violation(f"{kind}.bounds.half_finite.raises", dict(case, history=hname), f"{type(ex).__name__}: {ex}")
+
+
 def check_many_vertices(col, kind, st, T):
     """single elements with 63..1033 vertices (the extreme vertices at the start, in the middle and at the end)"""
     from .c14 import long_family
@@ -280,6 +314,7 @@ def run(ctx):
         if seqs and seqs[0] == ():
             check_long(col, kind, st, L.transform_for(st, ctx.seed, salt=j))
             check_many_vertices(col, kind, st, L.transform_for(st, ctx.seed, salt=j))
+            check_half_finite(col, kind, st)
         pool = pools(kind, st.startswith("float"))
         T = L.transform_for(st, ctx.seed, salt=j)
         for s in seqs:
@@ -300,6 +335,9 @@ def run(ctx):
 
 def replay(ctx, case):
     col = core.Collector()
+    if "half_finite" in case:
+        check_half_finite(col, case["kind"], case["subtype"])
+        return col.violations
     elems = [telem(e) for e in case["elems"]]
 
     def fix(e):   # JSON turns NaN/inf into floats already (python json allows NaN/Infinity)
